@@ -407,6 +407,7 @@ def run(facts, out):
     check_line_termination(facts, out)
     check_whole_lists_written(facts, out)
     check_timing_columns(facts, out)
+    check_flags_as_numbers(facts, out)
     check_redundancy_tolerance(facts, out)
 
 
@@ -493,6 +494,34 @@ def check_lossless(facts, out):
 
 # K8: the end time of a spinner is its own `,`-field; the end time of a hold is the first `:`-item of
 # the sample field.  Which separator follows the end time is decided by the object's kind alone.
+def check_flags_as_numbers(facts, out):
+    """K14: a boolean is never written with `{}`.  The decoders read every flag as a number (`i32::parse(v)? == 1`,
+    first character `1`); `true`/`false` is rejected by those parsers, so a flag formatted through Display makes the
+    encoder write a line its own decoder refuses.  Decided on the monomorphised call graph, so a generic
+    `write_value::<W, T: Display>` helper instantiated with T = bool is seen exactly like a direct `write!`.
+    (Guard of the rule: no decoder parses a `bool` with FromStr; if one ever does, the rule says so instead of firing.)"""
+    inst = facts.instances
+    enc = [i for i in inst if i['def'].startswith('encode::')]
+    out.anchor('KT', 'monomorphised encoder functions', len(enc) >= 20, '%d' % len(enc))
+    parses_bool = [i['full'] for i in inst if i['def'].endswith('std::str::FromStr>::from_str') and i['full'].startswith('<bool as')]
+    by_def = {}
+    for i in enc:
+        fm = [c for c in i['calls'] if 'fmt::rt::Argument' in c['path'] and '::new_' in c['path']]
+        if not fm:
+            continue
+        by_def.setdefault(i['def'], []).extend((i['full'], c) for c in fm)
+    for d, cs in sorted(by_def.items()):
+        bad = [(full, c) for full, c in cs if c['rfull'].endswith(('::<bool>', '::<&bool>', '::<&&bool>'))]
+        b = facts.bodies.get(d)
+        loc = '%s:%d' % (b.file, b.line) if b is not None else 'src/encode.rs'
+        ok = not bad or bool(parses_bool)
+        out.add('KT-K14', d, 'flags-written-as-numbers', loc, ok,
+                '' if ok else ('`%s` formats a bool with `{}`: it writes `true`/`false`, which the decoder (flags are parsed as '
+                               'integers and compared with 1) rejects' % bad[0][0]),
+                {'formatted_argument_types': sorted({c['rfull'].split('::new_')[-1] for _f, c in cs}),
+                 'note': 'a decoder parses bool via FromStr: rule not applicable' if parses_bool else None}, ordinal=False)
+
+
 def check_timing_columns(facts, out):
     """K13: the columns of a written timing line come from the control point kind the decoder fills them into:
     the velocity column from the difficulty point's slider velocity, the signature from the timing point, the kiai /
@@ -832,6 +861,93 @@ def _match_table(hfn):
     return res
 
 
+def _tuple_elems_used(cl):
+    """indices of the tuple parameter a one-parameter closure reads (through a tuple pattern or `.0`/`.1`)"""
+    used = set()
+    ps = cl.get('params', [])
+    if len(ps) != 1:
+        return None
+    p = ps[0]
+    while isinstance(p, dict) and p.get('k') in ('pref', 'pderef') and 'p' in p:
+        p = p['p']
+    names = {}
+    if p.get('k') == 'ptuple':
+        for i, q in enumerate(p.get('pats', [])):
+            for n in H.pat_bindings(q):
+                names[n] = i
+    elif p.get('k') == 'bind':
+        whole = p['name']
+
+        def v(n, anc):
+            if n.get('k') == 'field' and str(n.get('n', '')).isdigit():
+                e = H.peel(n['e'])
+                while isinstance(e, dict) and e.get('k') == 'unary' and e.get('op') == 'Deref':
+                    e = H.peel(e['e'])
+                if isinstance(e, dict) and e.get('k') == 'local' and e.get('name') == whole:
+                    used.add(int(n['n']))
+        H.walk(cl['body'], v)
+        return used
+    else:
+        return None
+
+    def v2(n, anc):
+        if n.get('k') == 'local' and n.get('name') in names:
+            used.add(names[n['name']])
+    H.walk(cl['body'], v2)
+    return used
+
+
+def _lookup_table(facts, hfn):
+    """{str literal: variant} from a constant table of pairs searched by its literal:
+    `TABLE.iter().find(|(k, _)| *k == name).map(|(_, v)| *v)` (also find_map / position-free spellings are not needed
+    yet); the closure of `find` must read the literal column only, the closure of `map` the other one"""
+    res = {}
+
+    def table_of(e):
+        e = H.peel(e)
+        while isinstance(e, dict) and e.get('k') == 'mcall' and e.get('name') in ('iter', 'into_iter', 'as_slice', 'copied', 'cloned'):
+            e = H.peel(e['recv'])
+        while isinstance(e, dict) and e.get('k') in ('addr',):
+            e = H.peel(e['e'])
+        if isinstance(e, dict) and e.get('k') == 'path' and dict.__contains__(facts.hir, e.get('def', '')):
+            b = H.peel(facts.hir[e['def']]['body'])
+            if isinstance(b, dict) and b.get('k') == 'addr':
+                b = H.peel(b['e'])
+            if isinstance(b, dict) and b.get('k') == 'array':
+                rows = [H.peel(x) for x in b.get('es', [])]
+                if rows and all(isinstance(r, dict) and r.get('k') == 'tup' and len(r.get('es', [])) == 2 for r in rows):
+                    return rows
+        return None
+
+    def visit(e, anc):
+        if e.get('k') != 'mcall' or e.get('name') != 'map' or len(e.get('args', [])) != 1:
+            return
+        f = H.peel(e['recv'])
+        if not (isinstance(f, dict) and f.get('k') == 'mcall' and f.get('name') == 'find' and len(f.get('args', [])) == 1):
+            return
+        rows = table_of(f['recv'])
+        c_find, c_map = H.peel(f['args'][0]), H.peel(e['args'][0])
+        if rows is None or c_find.get('k') != 'closure' or c_map.get('k') != 'closure':
+            return
+        ki = [i for i in (0, 1) if all(H.peel(r['es'][i]).get('k') == 'lit' and H.peel(r['es'][i]).get('t') == 'str' for r in rows)]
+        if len(ki) != 1:
+            return
+        ki = ki[0]
+        body = H.peel(c_find['body'])
+        if not (isinstance(body, dict) and body.get('k') == 'binary' and body.get('op') == 'Eq'):
+            return
+        if _tuple_elems_used(c_find) != {ki} or _tuple_elems_used(c_map) != {1 - ki}:
+            return
+        for r in rows:
+            lit = H.peel(r['es'][ki])['v']
+            var = _ctor_in(r['es'][1 - ki])
+            if lit in res and res[lit] != var:
+                continue            # `find` takes the first row
+            res[lit] = var
+    H.walk(hfn['body'], visit)
+    return res
+
+
 def _match_table_rev(hfn):
     res = {}
 
@@ -1113,12 +1229,19 @@ def run_kv(facts, out):
     if body is None:
         return
     splits = []
-    for bb, t in body.calls():
-        c = callee_of(t)
-        if not c:
-            continue
-        if c['path'].startswith('core::str::<impl str>::') and (c['name'] in BOUNDED_SPLITS or c['name'] in UNBOUNDED_SPLITS):
-            splits.append((c['name'], t))
+    todo, seen_b = [(body, 0)], {body.path}
+    while todo:
+        b_, dpt = todo.pop(0)
+        for bb, t in b_.calls():
+            c = callee_of(t)
+            if not c:
+                continue
+            if c['path'].startswith('core::str::<impl str>::') and (c['name'] in BOUNDED_SPLITS or c['name'] in UNBOUNDED_SPLITS):
+                splits.append((c['name'], t))
+            elif dpt < 2 and c['path'] not in seen_b and dict.__contains__(facts.bodies, c['path']):
+                # a private helper that does the splitting for KeyValue::parse
+                seen_b.add(c['path'])
+                todo.append((facts.bodies[c['path']], dpt + 1))
     out.anchor('KV', 'split call in KeyValue::parse', bool(splits), str([s[0] for s in splits]))
     for name, t in splits:
         ok = name in BOUNDED_SPLITS
